@@ -141,7 +141,7 @@ class C18(object):
         faults = fam in ("cf_text", "pars", "grains_text", "ubi") and rnd.random() < 0.5
         ops = []
         for _ in range(nops):
-            kind = rnd.choice(["save", "save", "load", "load", "resave"])
+            kind = rnd.choice(["save", "save", "load", "load", "resave"] + (["edit"] if fam == "pars" else []))
             op = {"op": kind, "slot": rnd.randint(0, 2), "seed": rnd.getrandbits(40)}
             if kind == "resave":
                 op["to"] = rnd.randint(0, 2)
@@ -152,6 +152,8 @@ class C18(object):
                 op["reuse_reader"] = rnd.random() < 0.4   # read into a columnfile object that already read another file
             if fam == "sparse" and kind in ("save", "resave"):
                 op["overwrite"] = rnd.random() < 0.5   # save into the group that is already there
+            if fam == "cf_hdf" and kind == "save":
+                op["flipzeros"] = rnd.random() < 0.3
             if fam == "pars" and kind == "resave":
                 op["via_indexer"] = rnd.random() < 0.4    # the file goes through indexer.loadpars / savepars
             if fam == "cf_hdf" and kind == "load":
@@ -275,8 +277,8 @@ class C18(object):
                         if (got.dtype.kind not in "iu" and not getattr(self, "values_only", False)) or not (float(got[i]) == float(v)) \
                                 or int(got[i]) != int(v):
                             return "%s: integer column %s row %d: saved %r, read %r (dtype %s)" % (where, t, i, v, got[i], got.dtype)
-                    elif not (float(got[i]) == v):
-                        return "%s: column %s row %d: saved %r, read %r" % (where, t, i, v, got[i])
+                    elif not (float(got[i]) == v) or (v == 0 and math.copysign(1.0, float(got[i])) != math.copysign(1.0, v)):
+                        return "%s: column %s row %d: saved %r, read %r" % (where, t, i, v, float(got[i]))
                 else:
                     if not (abs(float(got[i]) - v) <= tol_for(t, v)):
                         return "%s: column %s row %d: saved %r, read %r (documented precision %s allows %.3g)" % (
@@ -389,6 +391,8 @@ class C18(object):
                                                             tuple(payload["shape"]), pixels=px)
                         if payload["meta"]:
                             spf.meta["intensity"] = {"threshold": 3.5}
+                            if "labels" in px:
+                                spf.meta["labels"] = {"nlabel": int(max(payload["pixels"]["labels"]))}
                         if os.path.exists(p) and not op.get("overwrite"):
                             os.remove(p)
                         with self.h5py.File(p, "a") as h:
@@ -464,6 +468,10 @@ class C18(object):
                     if n not in obj.pixels:
                         return "%s: pixel array %s lost" % (where, n)
                     a = np.array(v, payload["dt"][n])
+                    want_meta = {} if not payload["meta"] else ({"threshold": 3.5} if n == "intensity" else {"nlabel": int(max(v))})
+                    for mk, mv in want_meta.items():
+                        if mk not in obj.meta.get(n, {}) or obj.meta[n][mk] != mv:
+                            return "%s: metadata %s=%r of pixel array %s came back as %r" % (where, mk, mv, n, obj.meta.get(n, {}).get(mk))
                     if (obj.pixels[n].dtype != a.dtype and not self.lenient_dtype) or len(obj.pixels[n]) != len(a) or \
                             (obj.pixels[n] != a).any():
                         return "%s: pixel array %s differs (dtype %s vs %s)" % (where, n, obj.pixels[n].dtype, a.dtype)
@@ -475,8 +483,24 @@ class C18(object):
         for step, op in enumerate(desc["ops"]):
             k = key_of(op)
             st = model.get(k)
+            if op["op"] == "edit":
+                # a parameter file edited by hand: an empty line or a stray word somewhere in the middle; every well-formed
+                # line must still be read
+                if fam == "pars" and st is not None and st["ack"] is not None and not st["dirty"]:
+                    with open(path(op["slot"])) as fh:
+                        lines = fh.readlines()
+                    lines.insert(op["seed"] % max(1, len(lines)), "\n" if op["seed"] % 2 else "orphan\n")
+                    with open(path(op["slot"]), "w") as fh:
+                        fh.writelines(lines)
+                    counts["hand_edited_parameter_files"] += 1
+                continue
             if op["op"] == "save":
                 payload = self.make_payload(fam, op["seed"])
+                if op.get("flipzeros") and fam == "cf_hdf" and st is not None and st["ack"] is not None and not st["dirty"]:
+                    # the same table again, only the signs of its zeros changed (a column multiplied by -1)
+                    payload = {"cols": [[t_, [(-x_ if x_ == 0 else x_) for x_ in v_]] for t_, v_ in st["ack"]["cols"]],
+                               "pars": st["ack"].get("pars", {})}
+                    counts["resaves_with_zero_signs_flipped"] += 1
                 ok, err = do_save(op, payload, op["slot"])
                 counts["save_ack" if ok else "save_refused"] += 1
                 hist.append(("save", k, ok))
